@@ -23,12 +23,20 @@ RULE = ('value / matrix: a pair of typed atoms (22 atomic types; constructor cal
         'comparable kind checked for reflexivity, antisymmetry, transitivity, lt <=> not ge, eq <=> not ne using only '
         'the implementation\'s own answers; ebv: boolean()/not()/if/and/or of a sequence against the EBV table; logic: random '
         'and/or/not/if formulas over EBV-able operands (errors included) against Boolean algebra with evaluation-order '
-        'freedom. non-trivial = cross-type pair, a sequence of length >= 2, NaN, untypedAtomic, or a timezone-less next to a '
+        'freedom; pathlogic: and/or/not/if formulas whose operands are path expressions (absolute/descendant paths with '
+        'empty or non-empty result, relative paths) evaluated on a 9-element document with each element as context item, '
+        'directly, commuted, through De Morgan and inside a predicate over a node sequence, against truth values computed '
+        'in python on the ElementTree; tzhistory: the same caller-owned date/time objects passed as $variables to 2-3 '
+        'successive rounds of all twelve comparisons under contexts whose implicit timezones differ, each round judged for '
+        'its own timezone, objects must stay unchanged. non-trivial = cross-type pair, a sequence of length >= 2, NaN, untypedAtomic, or a timezone-less next to a '
         'timezoned value; distinct by (check, mode, timezone, operands / formula).')
 ASSUMPTIONS = [
     'strings are compared with the Unicode codepoint collation only (python str order)',
     'a comparison that mixes a timezone-less and a timezoned date/time value is judged only when the context sets the '
-    'implicit timezone explicitly (XPathContext(timezone=...)); two timezone-less values are compared as written',
+    'implicit timezone explicitly (XPathContext(timezone=...)): then the implicit timezone is DEMANDED (no UTC tolerance); '
+    'with the implicit timezone unset such a mix has no verdict; two timezone-less values are compared as written',
+    'pathlogic trusts python ElementTree child/parent/sibling navigation for the truth of each path operand; an operand '
+    'whose own boolean() disagrees is reported as pathlogic/.../operand and the formulas over it are skipped',
     'general comparison: when one pair is true and another pair raises, either outcome is accepted (XPath 3.1 3.7.2); '
     'when no pair is true and some pair raises, the error is demanded; which of several applicable error codes is raised '
     'is not judged beyond membership',
@@ -42,12 +50,14 @@ FLOORS = {
     'value:cross-type': (0.15, 'value:pair'), 'value:comparable': (0.30, 'value:pair'),
     'general:multi': (0.40, 'general:case'), 'general:untyped': (0.15, 'general:case'),
     'order:triple-all-comparable': (0.50, 'order:triple'), 'ebv:multi': (0.10, 'ebv:case'), 'logic:with-error-atom': (0.15, 'logic:case'),
+    'pathlogic:abs-first-then-relative@inner': (0.25, 'pathlogic:case'), 'pathlogic:inner-context': (0.70, 'pathlogic:case'),
+    'tzhistory:naive-vs-aware': (0.50, 'tzhistory:case'), 'tzhistory:timezone-changes': (0.60, 'tzhistory:case'),
 }
 
 MODES = ('2.0', '3.0', '3.1')
 VAL_OPS = C.OPS
 GEN_OPS = tuple(C.GENERAL)
-TZ_MIN = {None: None, '-05:00': -300, '+05:00': 300}
+TZ_MIN = {None: None, '-05:00': -300, '+05:00': 300, 'Z': 0, '+14:00': 840, '-10:00': -600}
 
 _PARSERS: dict = {}
 _ROOT = None
@@ -266,22 +276,6 @@ def _special(discs, start, family, types, op, obs, a, b, mode, tz, close, genera
     if close:
         d.bucket = f'C07/numeric-isclose-tolerance/{family}/{op}'
         return
-    a2, b2 = a, b
-    temporal = C.DATETIMES + C.GREGORIAN
-    if general and a[0] == 'untypedAtomic' and b[0] in temporal:
-        a2 = [b[0], a[1]]
-    elif general and b[0] == 'untypedAtomic' and a[0] in temporal:
-        b2 = [a[0], b[1]]
-    try:
-        mixed = tz is not None and a2[0] == b2[0] and _temporal_mixed([a2, b2])
-    except C.CastError:
-        mixed = False
-    if mixed:
-        r = C.value_compare(opn, a2, b2, mode, 0)
-        if r is not None and r[0] == 'bool' and r[1] == obs[1]:
-            # the implicit timezone of the dynamic context is ignored: timezone-less values are taken as UTC
-            d.bucket = f'C07/implicit-timezone-ignored/{family}/{a2[0]}'
-            return
     m = _as_double_compare(opn, a, b)
     if m is not None and m == obs[1]:
         d.bucket = f'C07/float-carried-as-double/{family}/{types}'
@@ -585,6 +579,263 @@ def judge_logic(case, rec: Recorder | None = None) -> list[Disc]:
 
 
 # --------------------------------------------------------------------------
+# logic over path operands evaluated with a real context item (not the root)
+# --------------------------------------------------------------------------
+_DOC = None
+
+
+def _doc():
+    """<r k='1'><a><c/><b/></a><a k='2'><b/></a><b><c/></b><d/></r>  built by construction;
+    -> (root, elements in document order, parent map)"""
+    global _DOC
+    if _DOC is None:
+        import xml.etree.ElementTree as ET
+        r = ET.Element('r', {'k': '1'})
+        a1 = ET.SubElement(r, 'a')
+        ET.SubElement(a1, 'c')
+        ET.SubElement(a1, 'b')
+        a2 = ET.SubElement(r, 'a', {'k': '2'})
+        ET.SubElement(a2, 'b')
+        b3 = ET.SubElement(r, 'b')
+        ET.SubElement(b3, 'c')
+        ET.SubElement(r, 'd')
+        els = list(r.iter())
+        _DOC = (r, els, {ch: pa for pa in els for ch in pa})
+    return _DOC
+
+
+def _kids(e, tag=None):
+    return [c for c in e if tag is None or c.tag == tag]
+
+
+# operand pool: XPath text -> independent truth of its effective boolean value at element e
+# (R = root element, P = parent map); kind: 'abs' (absolute / descendant from the root), 'rel', 'const'
+_PATH_OPS = {
+    '//x': ('abs', lambda e, R, P: False), '/x': ('abs', lambda e, R, P: False), '/r/x': ('abs', lambda e, R, P: False),
+    '//zz/b': ('abs', lambda e, R, P: False), '/r/a/x': ('abs', lambda e, R, P: False), '//d/c': ('abs', lambda e, R, P: False),
+    '//c': ('abs', lambda e, R, P: True), '/r': ('abs', lambda e, R, P: True), '/r/a': ('abs', lambda e, R, P: True),
+    '/r/d': ('abs', lambda e, R, P: True), '//a/b': ('abs', lambda e, R, P: True),
+    'b': ('rel', lambda e, R, P: bool(_kids(e, 'b'))), 'c': ('rel', lambda e, R, P: bool(_kids(e, 'c'))),
+    'a': ('rel', lambda e, R, P: bool(_kids(e, 'a'))), 'd': ('rel', lambda e, R, P: bool(_kids(e, 'd'))),
+    'x': ('rel', lambda e, R, P: False),
+    'a/c': ('rel', lambda e, R, P: any(_kids(x, 'c') for x in _kids(e, 'a'))),
+    'b/c': ('rel', lambda e, R, P: any(_kids(x, 'c') for x in _kids(e, 'b'))),
+    '*': ('rel', lambda e, R, P: len(e) > 0), '@k': ('rel', lambda e, R, P: 'k' in e.attrib),
+    'self::a': ('rel', lambda e, R, P: e.tag == 'a'), 'self::b': ('rel', lambda e, R, P: e.tag == 'b'),
+    '../b': ('rel', lambda e, R, P: e in P and bool(_kids(P[e], 'b'))),
+    '../d': ('rel', lambda e, R, P: e in P and bool(_kids(P[e], 'd'))),
+    'following-sibling::*': ('rel', lambda e, R, P: e in P and list(P[e]).index(e) < len(P[e]) - 1),
+    'preceding-sibling::a': ('rel', lambda e, R, P: e in P and any(x.tag == 'a' for x in list(P[e])[:list(P[e]).index(e)])),
+    'true()': ('const', lambda e, R, P: True), 'false()': ('const', lambda e, R, P: False),
+}
+# node sequences for the predicate form: XPath text -> elements (python)
+_PATH_SETS = {
+    'a': lambda e, R, P: _kids(e, 'a'), '*': lambda e, R, P: _kids(e),
+    '//a': lambda e, R, P: [x for x in R.iter() if x.tag == 'a'],
+    '/r/*': lambda e, R, P: _kids(R),
+    'descendant-or-self::*': lambda e, R, P: list(e.iter()),
+    '//*': lambda e, R, P: list(R.iter()),
+}
+
+
+def _render_pf(f, ops, xp1):
+    k = f[0]
+    if k == 'atom':
+        return ops[f[1]]
+    if k == 'not':
+        return f'not({_render_pf(f[1], ops, xp1)})'
+    if k in ('and', 'or'):
+        return f'({_render_pf(f[1], ops, xp1)} {k} {_render_pf(f[2], ops, xp1)})'
+    c, x, y = (_render_pf(g, ops, xp1) for g in f[1:])
+    if xp1:     # XPath 1.0 has no conditional expression
+        return f'(({c} and {x}) or (not({c}) and {y}))'
+    return f'(if ({c}) then {x} else {y})'
+
+
+def _swap(f):
+    """commute every and / or"""
+    k = f[0]
+    if k == 'atom':
+        return f
+    if k == 'not':
+        return ['not', _swap(f[1])]
+    if k in ('and', 'or'):
+        return [k, _swap(f[2]), _swap(f[1])]
+    return ['if', _swap(f[1]), _swap(f[2]), _swap(f[3])]
+
+
+def _demorgan(f):
+    """X or Y -> not(not X and not Y); X and Y -> not(not X or not Y)"""
+    k = f[0]
+    if k == 'atom':
+        return f
+    if k == 'not':
+        return ['not', _demorgan(f[1])]
+    if k in ('and', 'or'):
+        other = 'and' if k == 'or' else 'or'
+        return ['not', [other, ['not', _demorgan(f[1])], ['not', _demorgan(f[2])]]]
+    return ['if', _demorgan(f[1]), _demorgan(f[2]), _demorgan(f[3])]
+
+
+def _truth(f, val):
+    k = f[0]
+    if k == 'atom':
+        return val(f[1])
+    if k == 'not':
+        return not _truth(f[1], val)
+    if k == 'and':
+        return _truth(f[1], val) and _truth(f[2], val)
+    if k == 'or':
+        return _truth(f[1], val) or _truth(f[2], val)
+    return _truth(f[2], val) if _truth(f[1], val) else _truth(f[3], val)
+
+
+def _abs_then_rel(f, ops):
+    """an and/or whose first operand starts with an absolute path and whose second operand contains a relative one"""
+    def kinds(g, out):
+        if g[0] == 'atom':
+            out.add(_PATH_OPS[ops[g[1]]][0])
+        else:
+            for h in g[1:]:
+                kinds(h, out)
+        return out
+
+    def first_atom_kind(g):
+        while g[0] != 'atom':
+            g = g[1]
+        return _PATH_OPS[ops[g[1]]][0]
+
+    if f[0] == 'atom':
+        return False
+    if f[0] in ('and', 'or') and first_atom_kind(f[1]) == 'abs' and 'rel' in kinds(f[2], set()):
+        return True
+    return any(_abs_then_rel(g, ops) for g in f[1:])
+
+
+def observe_at(mode, expr, ctx_index):
+    """evaluate expr with the document of _doc() and the ctx_index-th element as context item (fresh context)"""
+    from elementpath import XPathContext, ElementPathError
+    R, els, _ = _doc()
+    try:
+        tok = _parser(mode).parse(expr)
+        res = tok.get_results(XPathContext(root=R, item=els[ctx_index]))
+    except ElementPathError as e:
+        return ('error', (e.code or 'no-code').split(':')[-1])
+    except RecursionError:
+        raise
+    except Exception as e:
+        return ('escape', e)
+    if isinstance(res, list) and len(res) == 1:
+        res = res[0]
+    if res is True or res is False:
+        return ('bool', res)
+    if isinstance(res, (int, float)) and not isinstance(res, bool):
+        return ('number', res)
+    return ('other', repr(res)[:80])
+
+
+def judge_pathlogic(case, rec: Recorder | None = None) -> list[Disc]:
+    mode, ci, ops, f, sset = case['mode'], case['ctx'], case['operands'], case['formula'], case['set']
+    R, els, P = _doc()
+    e = els[ci]
+    xp1 = mode == '1.0'
+    discs: list[Disc] = []
+    where = 'root' if ci == 0 else 'inner'
+
+    def truth_at(x, g):
+        return _truth(g, lambda i: _PATH_OPS[ops[i]][1](x, R, P))
+
+    exp = truth_at(e, f)
+    n = 0
+    # each operand on its own, on a fresh context (the oracle of the operands themselves)
+    for i in sorted(_formula_atoms(f, set())):
+        n += 1
+        obs = observe_at(mode, f'boolean({ops[i]})', ci)
+        _judge_outcome({_PATH_OPS[ops[i]][1](e, R, P)}, obs, 'pathlogic', where, 'operand', f'{mode} ctx={ci} boolean({ops[i]})', discs)
+    if not discs:
+        for name, g in (('formula', f), ('commuted', _swap(f)), ('de-morgan', _demorgan(f))):
+            n += 1
+            expr = f'boolean({_render_pf(g, ops, xp1)})'
+            obs = observe_at(mode, expr, ci)
+            _judge_outcome({exp}, obs, 'pathlogic', where, name, f'{mode} ctx={ci}({e.tag}) {expr}', discs)
+        # inside a predicate: the formula is evaluated with every item of a node sequence as context item
+        items = _PATH_SETS[sset](e, R, P)
+        want = sum(1 for x in items if truth_at(x, f))
+        expr = f'count({sset}[{_render_pf(f, ops, xp1)}])'
+        obs = observe_at(mode, expr, ci)
+        n += 1
+        if obs[0] == 'escape':
+            discs.append(Disc(escape_bucket(PROPERTY, obs[1]) + '/pathlogic', want, repr(obs[1]), f'{mode} ctx={ci} {expr}'))
+        elif obs[0] != 'number' or obs[1] != want:
+            discs.append(Disc(f'C07/pathlogic/{where}/wrong-count/predicate', want, _show(obs) if obs[0] != 'number' else obs[1],
+                              f'{mode} ctx={ci}({e.tag}) {expr}'))
+    if rec is not None:
+        atr = _abs_then_rel(f, ops)
+        classes = ['pathlogic:case', f'pathlogic:mode-{mode}'] + (['pathlogic:inner-context'] if ci else []) + \
+            (['pathlogic:abs-first-then-relative'] if atr else []) + \
+            (['pathlogic:abs-first-then-relative@inner'] if atr and ci else [])
+        rec.case(['pathlogic', mode, ci, ops, f, sset], nontrivial=f[0] != 'atom', classes=classes, n=n,
+                 sample={'check': 'pathlogic', 'mode': mode, 'ctx': ci, 'expr': _render_pf(f, ops, xp1)})
+    return discs
+
+
+# --------------------------------------------------------------------------
+# histories: caller-owned date/time objects re-used under different implicit timezones
+# --------------------------------------------------------------------------
+
+def _dt_object(atom):
+    from elementpath import datatypes as D
+    cls = {'dateTime': D.DateTime, 'date': D.Date, 'time': D.Time, 'gYear': D.GregorianYear, 'gYearMonth': D.GregorianYearMonth,
+           'gMonth': D.GregorianMonth, 'gMonthDay': D.GregorianMonthDay, 'gDay': D.GregorianDay}[atom[0]]
+    return cls.fromstring(atom[1])
+
+
+def judge_tzhistory(case, rec: Recorder | None = None) -> list[Disc]:
+    """the same python objects ($a, $b) are compared under a list of contexts with different implicit timezones"""
+    from elementpath import XPathContext, ElementPathError
+    mode, a, b, tzs = case['mode'], case['a'], case['b'], case['tzs']
+    discs: list[Disc] = []
+    oa, ob = _dt_object(a), _dt_object(b)          # built once, re-used by every step
+    sa0, sb0 = str(oa), str(ob)
+    typ = a[0]
+    ops = [(op, f'$a {op} $b') for op in VAL_OPS] + [(sym, f'$a {sym} $b') for sym in GEN_OPS]
+    toks = {expr: _parser(mode).parse(expr) for _, expr in ops}
+    n = judged = 0
+    for step, tz in enumerate(tzs):
+        tzm = TZ_MIN[tz]
+        for op, expr in ops:
+            ref = C.value_compare(C.GENERAL.get(op, op), a, b, mode, tzm)
+            try:
+                res = toks[expr].get_results(XPathContext(root=None, item=1, variables={'a': oa, 'b': ob}, timezone=tz))
+                obs = ('bool', res) if res is True or res is False else ('other', repr(res)[:60])
+            except ElementPathError as e:
+                obs = ('error', (e.code or 'no-code').split(':')[-1])
+            except RecursionError:
+                raise
+            except Exception as e:
+                obs = ('escape', e)
+            n += 1
+            if ref is None:
+                continue           # implicit timezone unset and the operands mix: no verdict, the step still runs
+            judged += 1
+            _judge_outcome({ref[1]}, obs, 'tzhistory', typ, ('first-step' if step == 0 else 'later-step') + '/' + op,
+                           f'{mode} step {step} tz={tz} after {tzs[:step]} {expr} a={a[1]} b={b[1]}', discs)
+        for name, o, s0 in (('a', oa, sa0), ('b', ob, sb0)):
+            if str(o) != s0:
+                discs.append(Disc(f'C07/tzhistory/{typ}/caller-object-mutated/step', s0, str(o),
+                                  f'{mode} ${name} after step {step} tz={tz}'))
+                return discs
+    if rec is not None:
+        naive = sum(1 for x in (a, b) if C.value(x)[1][1] is None)
+        classes = ['tzhistory:case', f'tzhistory:type-{typ}'] + (['tzhistory:naive-vs-aware'] if naive == 1 else []) + \
+            (['tzhistory:timezone-changes'] if len(set(tzs)) > 1 else [])
+        rec.case(['tzhistory', mode, a, b, tzs], nontrivial=naive >= 1 and len(set(tzs)) > 1, classes=classes, n=n,
+                 sample={'check': 'tzhistory', 'mode': mode, 'a': a, 'b': b, 'tzs': tzs})
+        rec.cls('tzhistory:judged-comparisons', judged)
+    return discs
+
+
+# --------------------------------------------------------------------------
 # strategies
 # --------------------------------------------------------------------------
 _mode = st.sampled_from(['3.1', '3.1', '2.0', '3.0'])
@@ -634,7 +885,7 @@ def general_case(draw):
     side = draw(st.integers(0, 2))     # untypedAtomic on both sides only in a third of the cases
     SA = draw(st.lists(typed if side == 1 else el, min_size=0, max_size=4))
     SB = draw(st.lists(typed if side == 2 else el, min_size=0, max_size=4))
-    return {'mode': draw(_mode), 'tz': None, 'A': SA, 'B': SB}
+    return {'mode': draw(_mode), 'tz': draw(_tz), 'A': SA, 'B': SB}
 
 
 _V10 = st.one_of(
@@ -668,6 +919,52 @@ logic_case = st.fixed_dictionaries({'mode': _mode, 'operands': st.lists(_EBV_ITE
                                     'formula': _formula(4)})
 
 
+_OPNAMES = sorted(_PATH_OPS)
+_ABS_EMPTY = [k for k in _OPNAMES if _PATH_OPS[k][0] == 'abs' and not _PATH_OPS[k][1](None, None, None)]
+_REL = [k for k in _OPNAMES if _PATH_OPS[k][0] == 'rel']
+
+
+@st.composite
+def pathlogic_case(draw):
+    k = draw(st.integers(0, 9))
+    if k < 5:      # first operand an absolute / descendant path with an empty result, the others relative
+        ops = [draw(st.sampled_from(_ABS_EMPTY))] + [draw(st.sampled_from(_REL)) for _ in range(3)]
+    else:
+        ops = [draw(st.sampled_from(_OPNAMES)) for _ in range(4)]
+    if k < 4:
+        rest = draw(_formula(4))
+        f = [draw(st.sampled_from(['or', 'and'])), ['atom', 0], rest if draw(st.booleans()) else ['atom', draw(st.integers(1, 3))]]
+        if draw(st.integers(0, 3)) == 0:
+            f = ['not', f]
+    else:
+        f = draw(_formula(4))
+    return {'mode': draw(st.sampled_from(['3.1', '3.1', '2.0', '1.0', '3.0'])), 'ctx': draw(st.sampled_from([0, 1, 1, 2, 3, 4, 4, 5, 6, 7, 8])),
+            'operands': ops, 'formula': f, 'set': draw(st.sampled_from(sorted(_PATH_SETS)))}
+
+
+_HTZ = st.sampled_from(['+05:00', '-05:00', None, 'Z', '+14:00', '-10:00'])
+_TEMPORAL_TYPES = list(C.DATETIMES + C.GREGORIAN)
+
+
+@st.composite
+def tzhistory_case(draw):
+    typ = draw(st.sampled_from(['dateTime', 'dateTime', 'date', 'time'] + _TEMPORAL_TYPES))
+    pool = A.POOLS[typ]
+    naive = [x for x in pool if C.value([typ, x])[1][1] is None]
+    aware = [x for x in pool if C.value([typ, x])[1][1] is not None]
+    k = draw(st.integers(0, 9))
+    if k < 7:
+        a, b = draw(st.sampled_from(naive)), draw(st.sampled_from(aware))
+    elif k < 9:
+        a, b = draw(st.sampled_from(naive)), draw(st.sampled_from(naive))
+    else:
+        a, b = draw(st.sampled_from(pool)), draw(st.sampled_from(pool))
+    if draw(st.booleans()):
+        a, b = b, a
+    tzs = draw(st.lists(_HTZ, min_size=2, max_size=3, unique=draw(st.integers(0, 9)) < 9))
+    return {'mode': draw(st.sampled_from(['3.1', '2.0'])), 'a': [typ, a], 'b': [typ, b], 'tzs': tzs}
+
+
 # --------------------------------------------------------------------------
 # type matrix
 # --------------------------------------------------------------------------
@@ -688,9 +985,9 @@ def matrix_cases(lo, hi, mode):
 # --------------------------------------------------------------------------
 # module interface
 # --------------------------------------------------------------------------
-_STRATS = {'value': value_case(), 'general': general_case(), 'general10': general10_case, 'order': order_case(),
+_STRATS = {'pathlogic': pathlogic_case(), 'tzhistory': tzhistory_case(), 'value': value_case(), 'general': general_case(), 'general10': general10_case, 'order': order_case(),
            'ebv': ebv_case, 'logic': logic_case}
-_JUDGES = {'value': judge_value, 'matrix': judge_value, 'general': judge_general, 'general10': judge_general10,
+_JUDGES = {'pathlogic': judge_pathlogic, 'tzhistory': judge_tzhistory, 'value': judge_value, 'matrix': judge_value, 'general': judge_general, 'general10': judge_general10,
            'order': judge_order, 'ebv': judge_ebv, 'logic': judge_logic, 'empty': judge_empty}
 
 
@@ -717,7 +1014,8 @@ def jobs(tier, seed):
             out.append({'check': 'matrix', 'mode': '2.0', 'lo': total * i // k, 'hi': total * (i + 1) // k})
     out.append({'check': 'empty'})
     plan = {'value': (2, 2500, 4, 40000), 'general': (3, 2500, 5, 40000), 'general10': (1, 1500, 1, 6000),
-            'order': (2, 1200, 3, 15000), 'ebv': (1, 2500, 2, 20000), 'logic': (1, 2500, 2, 30000)}
+            'order': (2, 1200, 3, 15000), 'ebv': (1, 2500, 2, 20000), 'logic': (1, 2500, 2, 30000),
+            'pathlogic': (2, 2000, 3, 25000), 'tzhistory': (1, 2500, 2, 25000)}
     for chk, (nq, pq, nt, pt) in plan.items():
         for i in range(nq if q else nt):
             out.append({'check': chk, 'shard': i, 'n': pq if q else pt, 'seed': derive_seed(seed, 'C07', chk, i)})
